@@ -24,3 +24,41 @@ Lemma C13_example :
   (* node 3 does not sit at the maximum of its inside values (index 1) *)
   argmax LinQ [0; 1; 2 # 3]%Q = 1%nat.
 Proof. split; [apply outside_orderb_spec; reflexivity|]. split; vm_compute; reflexivity. Qed.
+
+(** *** C10: the same caterpillar, inside + outside over exact rationals against the
+    explicit double sum over both internal nodes *)
+Definition ex10_lik (e i j : nat) : Q := 1 # Pos.of_nat (1 + e + i - j).
+Definition ex10_prior (u : nat) : list Q :=
+  if Nat.eqb u 3 then [0; 1 # 2; 1 # 3]%Q else if Nat.eqb u 4 then [0; 1 # 4; 1 # 5]%Q else [].
+Definition ex10_es : list edge := [(0, 3, 0); (1, 3, 1); (2, 4, 2); (3, 4, 3)]%nat.
+Definition ex10_es_out : list edge := [(3, 4, 3); (2, 4, 2); (1, 3, 1); (0, 3, 0)]%nat.
+Definition ex10_roots : list (nat * Q) := [(4%nat, 1%Q)].
+Definition sumQ (l : list Q) : Q := fold_right (fun x acc => Qred (x + acc)) 0%Q l.
+Definition pr10 (u i : nat) : Q := nth i (ex10_prior u) 0%Q.
+(** weight of the assignment (node 4 at index i, node 3 at index j <= i) *)
+Definition ex10_w (i j : nat) : Q :=
+  Qred (pr10 4 i * pr10 3 j * ex10_lik 3 i j * ex10_lik 2 i 0 * ex10_lik 0 j 0 * ex10_lik 1 j 0).
+Definition ex10_Z : Q := sumQ (map (fun i => sumQ (map (fun j => ex10_w i j) (seq 0 (i + 1)))) (seq 0 3)).
+(** brute-force marginals of node 3 (index j) and node 4 (index i) *)
+Definition ex10_m3 (j : nat) : Q := Qred (sumQ (map (fun i => if Nat.leb j i then ex10_w i j else 0%Q) (seq 0 3)) / ex10_Z).
+Definition ex10_m4 (i : nat) : Q := Qred (sumQ (map (fun j => ex10_w i j) (seq 0 (i + 1))) / ex10_Z).
+
+Definition ex10_run :=
+  match inside_pass LinQ 3 ex10_lik (fun _ => 1%Q) ex13_fixed ex10_prior true ex10_es ex10_roots with
+  | None => None
+  | Some (st, m) =>
+      match outside_pass LinQ 3 ex10_lik (fun _ => 1%Q) ex13_fixed st false false false 5 0%Q
+              ex10_es_out ex10_roots [3; 4]%nat with
+      | None => None
+      | Some out =>
+          let norm v := map (fun x => Qred (x / sumQ v)) v in
+          Some (m, option_map norm (posterior_grid LinQ st out 3), option_map norm (posterior_grid LinQ st out 4))
+      end
+  end.
+
+Lemma C10_example :
+  inside_orderb ex13_fixed [] (groupby e_parent ex10_es) = true /\
+  outside_orderb (map fst (groupby e_child ex10_es_out)) [] (groupby e_child ex10_es_out) = true /\
+  ex10_run = Some (ex10_Z, Some (map ex10_m3 (seq 0 3)), Some (map ex10_m4 (seq 0 3))) /\
+  Qlt 0 ex10_Z.
+Proof. split; [reflexivity|]. split; [reflexivity|]. split; vm_compute; reflexivity. Qed.
